@@ -257,6 +257,48 @@ def while_to_for(modules, known, rep):
                 break
 
 
+# ---------------------------------------------------------------------------------------------- N14 unroll constant loops
+def unroll_constant_loops(modules, known, rep):
+    """fresh `for x in (A, B, C): BODY` over a literal sequence of constants / enum members, BODY without break /
+    continue / nested loop / store to x, x unused afterwards  ==  BODY[x:=A]; BODY[x:=B]; BODY[x:=C]."""
+    for rel, sc, fn in all_functions(modules):
+        kh = _known_hashes(known, rel, sc, fn)
+        if kh is None:
+            continue
+        for owner, fld, stmts in list(_blocks(fn)):
+            i = 0
+            while i < len(stmts):
+                st = stmts[i]
+                i += 1
+                if not (isinstance(st, ast.For) and not st.orelse and isinstance(st.target, ast.Name) and isinstance(st.iter, (ast.Tuple, ast.List)) and _is_fresh(st, fn, kh)):
+                    continue
+                elts = st.iter.elts
+                if not (0 < len(elts) <= 16 and all(isinstance(e, ast.Constant) or (isinstance(e, ast.Attribute) and isinstance(e.value, ast.Name) and e.value.id[:1].isupper()) for e in elts)):
+                    continue
+                x = st.target.id
+                if any(isinstance(n, (ast.Break, ast.Continue, ast.For, ast.While, ast.AsyncFor)) for b in st.body for n in ast.walk(b)):
+                    continue
+                if any(isinstance(n, ast.Name) and n.id == x and isinstance(n.ctx, (ast.Store, ast.Del)) for b in st.body for n in ast.walk(b)):
+                    continue
+                after = [n for s2 in stmts[i:] for n in ast.walk(s2) if isinstance(n, ast.Name) and n.id == x]
+                if after:
+                    continue
+                new = []
+                for e in elts:
+                    class S(ast.NodeTransformer):
+                        def visit_Name(self, node):
+                            if node.id == x and isinstance(node.ctx, ast.Load):
+                                return ast.copy_location(copy.deepcopy(e), node)
+                            return node
+                    for b in st.body:
+                        c = S().visit(copy.deepcopy(b))
+                        ast.fix_missing_locations(c)
+                        new.append(c)
+                stmts[i - 1:i] = new
+                i += len(new) - 1
+                rep.other.append(f"loop over {len(elts)} constants at {rel}:{st.lineno} read as its {len(new)} unrolled statement(s)")
+
+
 # ---------------------------------------------------------------------------------------------- N5 / N6 fresh locals
 def _class_attr_stores(modules):
     """class -> method -> set of self-attributes stored; class -> method -> set of self-methods called."""
@@ -386,7 +428,8 @@ def propagate_fresh_locals(modules, known, rep):
                             # operands change per iteration: fine only if every use is in the same iteration after the def,
                             # i.e. inside the loop body and textually after the definition
                             uses = [x for x in ast.walk(fn) if isinstance(x, ast.Name) and x.id == name and isinstance(x.ctx, ast.Load)]
-                            p_ok = all(_inside(loop, u) and u.lineno > defn.lineno for u in uses)
+                            order = _preorder(fn)
+                            p_ok = all(_inside(loop, u) and order[id(u)] > order[id(defn)] for u in uses)
                 ok, why = p_ok, "single side-effect-free definition"
             if not ok:
                 continue
@@ -406,6 +449,18 @@ def propagate_fresh_locals(modules, known, rep):
                     return node
             fn.body = [S().visit(s) for s in fn.body]
             rep.other.append(f"new local `{name}` in {sc + '.' if sc else ''}{fn.name} replaced by its value in {uses} use(s) ({why})")
+
+
+def _preorder(fn) -> dict:
+    """id(node) -> position in a depth-first, source-order walk."""
+    out = {}
+
+    def rec(n):
+        out[id(n)] = len(out)
+        for c in ast.iter_child_nodes(n):
+            rec(c)
+    rec(fn)
+    return out
 
 
 def _enclosing_loop(fn, target):
